@@ -1796,7 +1796,13 @@ def _lincomb_impl(a, x1, b, x2, out):
         # Faster for small arrays. Also the only variant that works for
         # integer data, since the in-place variants below need true
         # division and scaling by arbitrary scalars.
-        out.data[:] = a * x1.data + b * x2.data
+        if a == 0 and b == 0:
+            # Zero assignment must not read the operands: ``0 * nan`` is
+            # ``nan``, so e.g. ``out.set_zero()`` on uninitialized memory
+            # would keep NaNs (the other two regimes assign 0 as well)
+            out.data[:] = 0
+        else:
+            out.data[:] = a * x1.data + b * x2.data
         return
 
     elif (size < THRESHOLD_MEDIUM or
